@@ -79,6 +79,13 @@
 (* ListConc lets the lister run while calls are in flight (beyond the      *)
 (* statement's quantifier; even the current design keeps a finer race).    *)
 (*                                                                         *)
+(* Initial state (round 5): the repository may already hold referrers that *)
+(* ANOTHER client pushed (conf.init) together with the fall-back index it  *)
+(* wrote - other order than this client would produce, every entry twice   *)
+(* (conf.idup), fewer descriptor fields (driver only) - see NA / InitSeq.  *)
+(* ReferrerList.Add / Delete on such an index: AddTo appends only when the *)
+(* DIGEST is not listed yet, Without removes EVERY entry of the digest.    *)
+(*                                                                         *)
 (* Deliberate deviations: cache expiry / pruning and the expiry of the     *)
 (* feature cache are not modelled (minutes; a history lasts milliseconds); *)
 (* descriptor slices are values (no aliasing of backing arrays: in-place   *)
@@ -143,7 +150,18 @@ Quiet == [ev |-> "none"]
 
 Ord == [a \in Arts |-> CASE a = "a1" -> 1 [] a = "a2" -> 2 [] OTHER -> 3]
 Upd(f, k, v) == [x \in DOMAIN f \cup {k} |-> IF x = k THEN v ELSE f[x]]
-Sel(s, f) == SelectSeq(s, LAMBDA a : Match(a, f))
+\* ---- round 5: two optional fields of a configuration (absent = the values of all earlier rounds)
+\*   conf.na    the artifacts whose manifest has no annotations (absent member or empty map)
+\*   conf.init  what ANOTHER client left in the repository before this client starts: the artifacts it
+\*              pushed, in the order it listed them in the fall-back index of their subject (client
+\*              managed back ends; with the referrers API only the manifests); conf.idup = 1: that client
+\*              listed every referrer twice (legal in an OCI index)
+NA == IF "na" \in DOMAIN conf THEN conf.na ELSE {}
+InitSeq == IF "init" \in DOMAIN conf THEN conf.init ELSE <<>>
+InitDup == "idup" \in DOMAIN conf /\ conf.idup = 1
+InitIdx(s) == LET v == SelectSeq(InitSeq, LAMBDA a : conf.subj[a] = s) IN IF InitDup THEN v \o v ELSE v
+InitTag(s) == IF conf.mode # "api" /\ InitIdx(s) # <<>> THEN [k |-> "idx", v |-> InitIdx(s)] ELSE [k |-> "none", v |-> <<>>]
+Sel(s, f) == SelectSeq(s, LAMBDA a : MatchN(NA, a, f))
 Without(s, a) == SelectSeq(s, LAMBDA b : b # a)
 \* content a cacheMan entry resolves to (objv: the obj function to resolve references in)
 Deref(e, objv) == IF e.k = "ref" THEN objv[e.p].v ELSE e.v
@@ -169,7 +187,8 @@ Running == {p \in Procs : ~Idle(p)}
 
 Init ==
   /\ conf \in Confs
-  /\ srvMan = {} /\ srvTag = [s \in Subj |-> NoTag] /\ srvIdx = {}
+  /\ srvMan = Range(InitSeq) /\ srvTag = [s \in Subj |-> InitTag(s)]
+  /\ srvIdx = {InitIdx(s) : s \in {x \in Subj : InitTag(x).k = "idx"}}
   /\ feat = "unknown" /\ cacheRL = [k \in RLKeys |-> NoList] /\ cacheArt = {} /\ cacheIdx = <<>>
   /\ lkmap = [k \in LKeys |-> IF k = "g" THEN "G" ELSE ""] /\ lkheld = [o \in LockIds |-> ""]
   /\ want = [p \in Procs |-> ""]
@@ -477,7 +496,7 @@ Quiesce ==
 ListEv(s, f, descs, err) ==
   LET r == Sel(descs, f) IN
   [ev |-> "list", s |-> s, f |-> f, res |-> r, types |-> [i \in 1..Len(r) |-> Type[r[i]]],
-   anns |-> [i \in 1..Len(r) |-> Ann[r[i]]], err |-> err]
+   anns |-> [i \in 1..Len(r) |-> AnnOf(NA, r[i])], err |-> err]
 
 \* a listing that overlapped a call reports nothing to the monitor
 Tell(e) == out' = IF lconc THEN Quiet ELSE e
@@ -549,7 +568,7 @@ TagObs(s) ==
   /\ phase = "obs" /\ lpc = "idle"
   /\ LET d == IF srvTag[s].k = "idx" THEN srvTag[s].v ELSE <<>> IN
      out' = [ev |-> "tag", s |-> s, res |-> d, types |-> [i \in 1..Len(d) |-> Type[d[i]]],
-             anns |-> [i \in 1..Len(d) |-> Ann[d[i]]]]
+             anns |-> [i \in 1..Len(d) |-> AnnOf(NA, d[i])]]
   /\ UNCHANGED dview
 
 \* ManifestGet by digest of an index stored earlier (reg: through cacheMan)
